@@ -329,6 +329,8 @@ func runC15(c *kit.Ctx) {
 	c15R2(c, a, r2)
 	c15R3(c, a, r3)
 	c15R4(c, a, r4)
+	r5 := c.Rule("R5", "the store listing honours includeDeleted for every edge", 4)
+	c15ListingFilter(c, r5)
 }
 
 // ---------------------------------------------------------------------------
